@@ -2,7 +2,7 @@
 // C07 — checked arithmetic is total (Total = true: invariant-only oracle over *all* operand values)
 #pragma once
 #include <set>
-#include "../core.h"
+#include "../scaledval.h"
 
 #include <cnl/all.h>
 
@@ -569,6 +569,97 @@ struct Flt {
         add_site({std::string(Total ? "C07|" : "C06|") + (Route ? "overflow_integer|" : "tagged|") + tag_info<Tag>::name + "|" + tname<F>::get() + "|"
                           + tname<D>::get() + "|" + path_name,
                   run, 0, nullptr});
+    }
+};
+////////////////////////////////////////////////////////////////////////////////
+// overflow_integer over a representation that is itself a CNL integer wrapper (wide_integer<31>, wide_integer<63>: two's complement,
+// so they have a most negative value; elastic_integer: symmetric range). Same contract: exact result, or the tag's overflow
+// handling exactly when the exact result leaves numeric_limits of the result's representation. Total: no trap is all that is asked.
+template<class Tag, class Rep, bool Total>
+struct WrapRep {
+    using O = cnl::overflow_integer<Rep, Tag>;
+    static constexpr int n_ops = 7;
+    static char const* opname(int op)
+    {
+        static char const* n[] = {"add", "sub", "mul", "div", "minus", "compound/=", "compound+="};
+        return n[op];
+    }
+    template<int Op>
+    static auto eval(O const& a, O const& b)
+    {
+        if constexpr (Op == 0) return a + b;
+        if constexpr (Op == 1) return a - b;
+        if constexpr (Op == 2) return a * b;
+        if constexpr (Op == 3) return a / b;
+        if constexpr (Op == 4) return -a;
+        if constexpr (Op == 5) {
+            O x = a;
+            x /= b;
+            return x;
+        }
+        if constexpr (Op == 6) {
+            O x = a;
+            x += b;
+            return x;
+        }
+    }
+    template<int Op>
+    static void check_op(mpz_class const& za, mpz_class const& zb, Outcome& o)
+    {
+        if ((Op == 3 || Op == 5) && zb == 0) return o.discard("zero-divisor");
+        O a = make_rep<O>(za), b = make_rep<O>(zb);
+        using Res = std::remove_cvref_t<decltype(eval<Op>(a, b))>;
+        auto rr = range_of<cnl::_impl::rep_of_t<Res>>();
+        mpz_class exact;
+        switch (Op) {
+        case 0: case 6: exact = za + zb; break;
+        case 1: exact = za - zb; break;
+        case 2: exact = za * zb; break;
+        case 3: case 5: mpz_tdiv_q(exact.get_mpz_t(), za.get_mpz_t(), zb.get_mpz_t()); break;
+        default: exact = -za;
+        }
+        int region = region_of(exact, rr.first, rr.second);
+        // cause region (the listed portable-multiply finding; wrapper reps have no intrinsic path): multiply(lhs >= 0, -1) evaluates
+        // lowest() / -1 inside the negative-overflow predicate
+        char const* cause = (Op == 2 && zb == -1 && za >= 0 && rr.first < 0) ? "nonnegative-times-minus-one" : "none";
+        std::string const prefix = std::string(opname(Op)) + "/wrapper-rep/" + cause;
+        if (std::string(cause) != "none") o.region = prefix;
+        Obs obs;
+        observe(o, obs, [&] { return rep_mpz(eval<Op>(a, b)); });
+        if (obs.trapped) {
+            o.fclass = prefix + "/" + o.fclass;
+            return;
+        }
+        auto lr = range_of<Rep>();
+        bool const boundary = za == lr.first || za == lr.second || zb == lr.first || zb == lr.second || zb == -1;
+        if constexpr (Total)
+            return o.pass(boundary, opname(Op));
+        else
+            judge<Tag>(prefix, region, exact, rr.first, rr.second, obs, o, boundary || region != 0, opname(Op));
+    }
+    static void check(int op, mpz_class const& za, mpz_class const& zb, Outcome& o, std::string* d)
+    {
+        if (d) *d = std::string(opname(op)) + " a=" + zstr(za) + " b=" + zstr(zb);
+        o.fp = fpn(za, zb, op);
+        [&]<int... I>(std::integer_sequence<int, I...>) { ((op == I ? check_op<I>(za, zb, o) : void()), ...); }
+        (std::make_integer_sequence<int, n_ops>{});
+    }
+    static void run(Words& w, Outcome& o, std::string* d)
+    {
+        int op = int(draw_small(w, 0, n_ops - 1));
+        mpz_class za = draw_rep<Rep>(w), zb = draw_rep<Rep>(w);
+        auto lr = range_of<Rep>();
+        unsigned m = unsigned(w.next() % 8);
+        if (m == 0) za = lr.first;
+        if (m == 1) zb = -1;
+        if (m == 2) za = lr.first, zb = -1;
+        if (m == 3) za = lr.second;
+        if (zb < lr.first || zb > lr.second) zb = 1;
+        check(op, za, zb, o, d);
+    }
+    static void reg(char const* name)
+    {
+        add_site({std::string(Total ? "C07" : "C06") + "|wrapper-rep|" + tag_info<Tag>::name + "|" + name, run, 0, nullptr});
     }
 };
 }  // namespace c06
